@@ -164,6 +164,15 @@ impl Segment {
       .as_ref()
       .store(encode_segment_node(self.data_size, next), Ordering::Release);
   }
+
+  /// The word of a segment that is about to be linked: marked as removed, pointing at its successor.
+  #[inline]
+  fn mark_inserting(&self, next: u32) {
+    self.as_ref().store(
+      encode_segment_node(REMOVED_SEGMENT_NODE, next),
+      Ordering::Release,
+    );
+  }
 }
 
 /// Arena should be lock-free
@@ -753,7 +762,10 @@ impl Arena {
         continue;
       }
 
-      segment_node.update_next_node(next_node_offset);
+      // Until the segment is linked, its own word says "removed": a thread that still holds this
+      // offset from an earlier traversal (the segment was in the list before) then backs off instead
+      // of claiming, or unlinking through, a segment that is not in the list.
+      segment_node.mark_inserting(next_node_offset);
 
       match current.compare_exchange(
         current_node_size_and_next_node_offset,
@@ -762,6 +774,9 @@ impl Arena {
         Ordering::Relaxed,
       ) {
         Ok(_) => {
+          // linked: publish the real size.
+          segment_node.update_next_node(next_node_offset);
+
           #[cfg(feature = "tracing")]
           tracing::debug!(
             "create segment node ({} bytes) at {}, next segment {next_node_offset}",
@@ -814,7 +829,10 @@ impl Arena {
         continue;
       }
 
-      segment_node.update_next_node(next_node_offset);
+      // Until the segment is linked, its own word says "removed": a thread that still holds this
+      // offset from an earlier traversal (the segment was in the list before) then backs off instead
+      // of claiming, or unlinking through, a segment that is not in the list.
+      segment_node.mark_inserting(next_node_offset);
 
       match current.compare_exchange(
         current_node_size_and_next_node_offset,
@@ -823,6 +841,9 @@ impl Arena {
         Ordering::Relaxed,
       ) {
         Ok(_) => {
+          // linked: publish the real size.
+          segment_node.update_next_node(next_node_offset);
+
           #[cfg(feature = "tracing")]
           tracing::debug!(
             "create segment node ({} bytes) at {}, next segment {next_node_offset}",
